@@ -344,3 +344,17 @@ def getter(ctx, oid, key, required, forbidden=(), text=None, rule="T1"):
     if bad:
         msg.append("reads %s" % fmt_missing(bad))
     ctx.decide(o, not miss and not bad, "", "%s %s" % (key.split("::")[-1], " and ".join(msg)))
+
+
+def root_local(fd, l, depth=0):
+    """follow single-definition move/copy chains back to the local that was originally defined"""
+    while depth < 10:
+        ds = [d for d in fd.defs.get(l, ()) if d.kind != "param"]
+        if len(ds) != 1 or ds[0].kind != "assign" or ds[0].instr.rv_kind() != "use":
+            return l
+        op = ds[0].instr.ops[0]
+        if op.place is None or not op.place.is_local:
+            return l
+        l = op.place.local
+        depth += 1
+    return l
